@@ -141,3 +141,45 @@ def run(ctx):
     if nmac < 40:
         raise AnalysisBroken("only %d float emit macros found" % nmac)
 
+
+    d5_scratch_constant(db, rep)
+
+
+def d5_scratch_constant(db, rep):
+    """D5: orc_compiler_get_temp_constant hands the rule emitters a *scratch* register holding a constant: the float->int
+    conversion rules (and others) use it as the destination of their next instruction.  Every value it returns must therefore
+    be a register obtained from orc_compiler_get_temp_reg in that very call; returning a register that something else keeps
+    (a pooled constant, a variable's register) lets one rule destroy a value that later iterations or instructions rely on."""
+    from flow import reaching_defs
+    f = db.func("orc_compiler_get_temp_constant", "orccompiler")
+    rep.saw(f)
+    rets = [r for r in f.walk() if r.k == "ReturnStmt" and r.c and r.c[0] is not None]
+    if not rets:
+        raise AnalysisBroken("orc_compiler_get_temp_constant has no return")
+    # premise: some caller really writes the register (else the rule would be vacuous)
+    writers = 0
+    for g, c in db.callers().get("orc_compiler_get_temp_constant", []):
+        p = c.parent
+        while p is not None and p.k in ("CStyleCastExpr", "ParenExpr", "ImplicitCastExpr"):
+            p = p.parent
+        nm = None
+        if p is not None and p.k == "VarDecl":
+            nm = p.name
+        elif p is not None and p.k == "BinaryOperator" and p.op == "=":
+            nm = access_path(p.c[0])
+        if nm and any(e.k == "CallExpr" and e.args() and access_path(e.args()[-1]) == nm for e in g.calls()):
+            writers += 1
+    rep.extra["callers_using_the_temp_constant_as_a_destination"] = writers
+    if writers < 2:
+        raise AnalysisBroken("no caller of orc_compiler_get_temp_constant uses the result as a destination operand any more (%d)" % writers)
+    for r in rets:
+        e = strip_casts(r.c[0])
+        srcs = [e]
+        if e is not None and e.k == "DeclRefExpr" and e.get("dk") == "local":
+            srcs = [(d.c[1] if d.k == "BinaryOperator" else d.c[0]) for d in reaching_defs(f, e.name, r)]
+        bad = [s for s in srcs if not (strip_casts(s) is not None and strip_casts(s).k == "CallExpr" and strip_casts(s).name == "orc_compiler_get_temp_reg")]
+        rep.check(not bad and bool(srcs), "D5-SCRATCH-CONSTANT", where(f), "return@%s" % r.line,
+                  "the returned register comes from orc_compiler_get_temp_reg",
+                  "orc_compiler_get_temp_constant can return `%s`, which is not a scratch register obtained from orc_compiler_get_temp_reg: "
+                  "rules that use the temporary constant as a destination (e.g. the saturation fix-up of convfl/convdl) then overwrite a value "
+                  "that stays live, and native results stop agreeing with emulation" % (unparse(bad[0])[:60] if bad else "?"), line=r.line)
